@@ -330,6 +330,8 @@ def run(cx, rep):
             rep.ob("C15.3", "%s/quoted-keys" % cn, quoted,
                    "%s.describeTypeExpr interpolates property names into the type text unquoted: a property such as \"a-b\" prints `a-b: string`, which is not valid TypeScript" % cn,
                    mod.loc(c), sample={"class": cn, "key_expr": ktxt})
+    rep.rule("C15.15", "`Record<K, V>` and `{[P in K]: V}` decide alike which members of K become declared properties")
+    key_classifier_agreement_rule(cx, rep, "C15.15")
     rep.rule("C15.14", "a property name is printed bare only if TypeScript reads it as an identifier")
     bare_key_rule(cx, rep, mod, "C15.14")
     rep.rule("C15.13", "a chain of members joined by | or & is parenthesised where it is built")
@@ -792,3 +794,109 @@ def bare_key_rule(cx, rep, mod, rid):
                            fname, pat, flags, "; ".join(bad)),
                        mod.loc(t), sample={"fn": fname, "pattern": pat, "flags": flags})
     rep.floor(rid, "bare-or-quoted property name tests", n, 1)
+
+
+# ---------------------------------------------------------------------------------------------------- C15.15
+def key_classifier_agreement_rule(cx, rep, rid):
+    """describe() prints an index signature as `[K in <key type>]: V`; compiling that text goes through the lowering of
+    MAPPED types, while the validator it came from was built by the lowering of `Record<..>` (or of an index
+    signature).  Both lowerings split the members of the key type into `declared property` and `index signature`;
+    the text round-trips only if they split alike.  Decided for the frontend functions that classify key members with
+    a function `&Runtype -> Option<String>` and build an index signature from the rest: the set of type variants for
+    which the classifier yields a property name (helpers followed) is the same in all of them."""
+    F = cx.rs
+    from rules.c02 import _variant_defs
+    import importlib
+    c02 = importlib.import_module("rules.c02")
+    users = {}
+    for g, t in F.hir.items():
+        f = F.fns.get(g)
+        if f is None or "/src/frontend" not in (f.file or "") or f.kind == "Closure":
+            continue
+        cs = set()
+        for n in hwalk(t["body"]):
+            if n["k"] in ("Call", "MethodCall"):
+                cal = n.get("callee") if n["k"] == "Call" else (n.get("resolved") or n.get("callee"))
+                tg = F._callee_gid(f.crate, cal or "")
+                tf = F.fns.get(tg)
+                if tf is not None and (tf.output or "") == "std::option::Option<std::string::String>" and len(tf.inputs or []) == 1 and "Runtype" in tf.inputs[0]:
+                    cs.add(tg)
+        builds = any((n.get("def") or "").endswith("IndexedProperty") for n in hwalk(t["body"]) if n["k"] == "Struct") or \
+            any(n["k"] == "Call" and (n.get("callee") or "").endswith("Runtype::record") for n in hwalk(t["body"]))
+        if cs and builds:
+            users[g] = cs
+    rep.floor(rid, "lowerings that split a key type into declared properties and an index signature", len(users), 2)
+    sig = {}
+    for g, cs in users.items():
+        vs = set()
+        for c in cs:
+            vs |= _some_variants(F, c)
+        sig[g] = vs
+    base = None
+    for g in sorted(sig):
+        if base is None:
+            base = (g, sig[g])
+            continue
+        diff = sorted(x.split("::", 2)[-1] for x in (sig[g] ^ base[1]))
+        rep.ob(rid, "%s~%s" % (base[0].rsplit("::", 1)[-1], g.rsplit("::", 1)[-1]), not diff,
+               "%s and %s both split the members of a key type into declared properties and an index signature, but they disagree on %s: a validator built by one lowering describes itself as `{ [K in ..]: V }`, and that text compiled by the other lowering has declared properties where the original had an index signature (or the reverse) - different values, different hash256" % (base[0], g, ", ".join(diff)),
+               F.fns[g].loc(), sample={"a": base[0], "b": g, "property_name_for": sorted(x.split("::", 2)[-1] for x in sig[g])})
+
+
+def _some_variants(F, g, depth=2, seen=None):
+    """enum variants matched on a path of g (a function &Runtype -> Option<String>) that yields Some"""
+    seen = seen or {g}
+    t = F.hir.get(g)
+    out = set()
+    if t is None:
+        return out
+    crate = F.fns[g].crate if g in F.fns else None
+    def variants(pat):
+        return {x["def"] for x in hwalk(pat) if x["k"] in ("P.TupleStruct", "P.Struct", "P.Expr") and "Ctor(Variant" in (x.get("defkind") or "") and not (x.get("def") or "").startswith("std::")}
+    def yields_some(body):
+        for x in hwalk(body):
+            if x["k"] == "Call" and (x.get("callee") or "").endswith("::Some"):
+                return True
+            if x["k"] in ("Call", "MethodCall"):
+                cal = x.get("callee") if x["k"] == "Call" else (x.get("resolved") or x.get("callee"))
+                tg = F._callee_gid(crate, cal or "")
+                if tg in F.hir and (F.fns.get(tg) is not None and (F.fns[tg].output or "").startswith("std::option::Option<")):
+                    return True
+                if x["k"] == "MethodCall" and x.get("method") in ("map", "and_then", "filter", "cloned"):
+                    return True
+        return False
+    def visit(n, ctxv):
+        if n["k"] == "Match":
+            for a in n["arms"]:
+                vs = variants(a["pat"])
+                if yields_some(a["body"]):
+                    out.update(ctxv | vs)
+                for c in _kids(a["body"]):
+                    visit(c, ctxv | vs)
+                visit(a["body"], ctxv | vs) if a["body"].get("k") == "Match" else None
+            return
+        if n["k"] == "If" and n["cond"].get("k") == "Let":
+            vs = variants(n["cond"]["pat"])
+            if yields_some(n["then"]):
+                out.update(ctxv | vs)
+            visit(n["then"], ctxv | vs)
+            if n.get("else"):
+                visit(n["else"], ctxv)
+            return
+        for c in _kids(n):
+            visit(c, ctxv)
+    visit(t["body"], set())
+    if depth > 0:
+        for x in hwalk(t["body"]):
+            if x["k"] in ("Call", "MethodCall"):
+                cal = x.get("callee") if x["k"] == "Call" else (x.get("resolved") or x.get("callee"))
+                tg = F._callee_gid(crate, cal or "")
+                if tg in F.hir and tg not in seen and F.fns.get(tg) is not None and (F.fns[tg].output or "") == "std::option::Option<std::string::String>":
+                    seen.add(tg)
+                    out |= _some_variants(F, tg, depth - 1, seen)
+    return out
+
+
+def _kids(n):
+    from facts import children
+    return list(children(n))
